@@ -26,6 +26,10 @@ claimed = {
  "C19": dict(engine="dense", level="exploration", technique="deterministic simulation: seeded search over operation histories under an adversarial allocator (exact alignment, poison, move-on-grow) against a Vec<Vec<T>> reference model",
    text="Seeded deterministic simulation of DenseMatrix<T, C> (T in {u8,u32,f32,i64}, C in {1,5,7,16,21,32,43}) through histories of new / with_capacity / from_rows / uninitialized+write / resize / reserve / row, cell and coordinate writes / fill / clone / equality by another construction route with different padding / inequality / forward, reverse, mutable and by-reference iteration, under an allocator that returns addresses aligned exactly as requested and never more, poisons fresh and freed memory and moves on every growth. After every operation: row count, stride, 32-byte row alignment and every cell against the model.",
    note="Trusted: the Vec<Vec<T>> model. The alignment claim is checked against what the type's layout requests from the allocator, which is the point: under the system allocator over-alignment is luck.", ref="DESIGN.md section 4 C19"),
+
+ "C18": dict(engine="pyview", level="exploration", technique="deterministic simulation inside an embedded CPython: seeded search over object histories (index, len, memoryview export, re-read of earlier views, scoring that re-sizes the object, copy, drop + gc) under poisoning / guard-page allocators, against a logical-content model",
+   text="Embedded CPython (pyo3) drives the real lightmotif extension module through seeded histories: new sequences and motifs, integer indexing aimed at 0, len-1, len, -1, -len, -len-1 on every indexable class, len(), memoryview export of every exporting class, re-reading every earlier view after later operations, calculate() / scan() that add look-ahead rows (re-sizing the striped sequence behind live views), copy, drop + gc.collect(). The Rust-side buffers the views expose are placed by the allocator seam (growth always moves; freed memory poisoned or unmapped), so a stale view shows 0x5A bytes or traps deterministically. Oracle: Python sequence semantics, logical len, each view's ndim / format / shape and every element against a model built with the core library from the same inputs, at export and at every later read; only Exception subclasses, never PanicException.",
+   note="Trusted: the Rust-side logical-content model (core library conversions from the same inputs); CPython's memoryview.tolist() as the reader of shape / strides / format. Python's own allocations are outside the allocator seam. Either orientation of a ScoringMatrix view and either row extent (with or without look-ahead rows) of a StripedSequence view is accepted as long as every element is the logical one.", ref="DESIGN.md section 4 C18"),
 }
 na = {
  "C01":"pure function of (matrix, sequence, row range, backend): no schedule, fault, clock, stream or stateful history for a simulator to control",
@@ -39,7 +43,7 @@ na = {
  "C13":"pure numerical algorithm",
  "C17":"stateless wrappers around pure functions; its stream slice is simulated under C14/C15 and its view slice under C18",
 }
-pending = {"C18":"pyview"}
+pending = {}
 import sys
 done = set(sys.argv[1:]) if len(sys.argv)>1 else set()
 checks=[]
@@ -68,7 +72,7 @@ m={
           "baseline_off_cmd":"cd /repo && cargo test --workspace --no-fail-fast --offline",
           "source_commits":["ca8be19"],
           "add_only":True},
- "engines":[{"name":"stripe","path":"/verif/sim/src/sims/stripe.rs","serves_properties":["C04"],"kind_free_text":"deterministic simulation of a long-lived striped sequence buffer: operation histories x host CPU x allocator"},{"name":"mem","path":"/verif/sim/src/sims/mem.rs","serves_properties":["C06"],"kind_free_text":"all workloads under guard-page / poison allocators; traps attributed to the run in flight"},{"name":"gibbs","path":"/verif/sim/src/sims/gibbs.rs","serves_properties":["C16"],"kind_free_text":"deterministic simulation of the Gibbs sampler behind an RNG seam with forced draws"},{"name":"dense","path":"/verif/sim/src/sims/dense.rs","serves_properties":["C19"],"kind_free_text":"deterministic simulation of DenseMatrix operation histories under an adversarial allocator"},{"name":"scan","path":"/verif/sim/src/sims/scan.rs","serves_properties":["C02","C03"],"kind_free_text":"deterministic simulation of the block scanner in a simulated world: host CPU profile, block-size knob, allocator policy, caller program"},{"name":"stream","path":"/verif/sim/src/sims/stream","serves_properties":["C14","C15"],"kind_free_text":"deterministic simulation of the motif-file readers over a simulated byte source (chunk schedules, EINTR, truncation, corruption, hard I/O errors)"}],
+ "engines":[{"name":"pyview","path":"/verif/pysim/src/pyview.rs","serves_properties":["C18"],"kind_free_text":"embedded CPython driving the lightmotif extension module; object histories x allocator policies; logical-content model of every view and index"},{"name":"stripe","path":"/verif/sim/src/sims/stripe.rs","serves_properties":["C04"],"kind_free_text":"deterministic simulation of a long-lived striped sequence buffer: operation histories x host CPU x allocator"},{"name":"mem","path":"/verif/sim/src/sims/mem.rs","serves_properties":["C06"],"kind_free_text":"all workloads under guard-page / poison allocators; traps attributed to the run in flight"},{"name":"gibbs","path":"/verif/sim/src/sims/gibbs.rs","serves_properties":["C16"],"kind_free_text":"deterministic simulation of the Gibbs sampler behind an RNG seam with forced draws"},{"name":"dense","path":"/verif/sim/src/sims/dense.rs","serves_properties":["C19"],"kind_free_text":"deterministic simulation of DenseMatrix operation histories under an adversarial allocator"},{"name":"scan","path":"/verif/sim/src/sims/scan.rs","serves_properties":["C02","C03"],"kind_free_text":"deterministic simulation of the block scanner in a simulated world: host CPU profile, block-size knob, allocator policy, caller program"},{"name":"stream","path":"/verif/sim/src/sims/stream","serves_properties":["C14","C15"],"kind_free_text":"deterministic simulation of the motif-file readers over a simulated byte source (chunk schedules, EINTR, truncation, corruption, hard I/O errors)"}],
  "checks":checks,
  "not_applicable":nas,
  "notes":"Deterministic simulation with fault injection; see DESIGN.md. Exit codes: 0 held, 1 VIOLATION, 2 harness error. Genuine defects found and repaired are listed in KNOWN_FINDINGS.txt (fixed: lines).",
